@@ -12,23 +12,29 @@
        parse cfg c u (Some cls) (events the handler delivers for the document the writer
                                  produced from (generate ign c u o)) = Ok o [].
    It is false of the faithful models (see the _refuted theorems below: xsi:nil conflation on
-   nillable fields, token lists inside sequence groups).  What is PROVED is the statement under the
-   computable guards `wf_model u cls` (the metadata fragment: slices S1-S4) and `fits ... o`, for
-   every ignore_default_attributes flag, every parser configuration whose class factory has a
-   default for every field, every converter satisfying the round-trip law on the values of `o`,
-   and EVERY event stream that reads as the document (any attribute order, any prefix maps,
-   indentation white space): theorem C01_roundtrip_S4.  It includes QName-typed element values
-   (scalar or list): the writer renders them with a prefix of its choice and `reads` resolves the
-   character data through the prefix map of the element's own start event (`resolve_qname`, the
-   XML Schema rule), the converter law asks the QName converter to agree with that rule.  The
-   forms of the theorem that go through the canonical stream `pump` or through C03's writers down
-   to the printed document are stated for instances without QName values (`noq o`): under a user
-   prefix map that binds the default namespace a QName without namespace is written bare and read
-   back inside that namespace (C01_qname_default_ns_refuted, finding C01-F3).  Inside S4 one combination is left to the
-   correspondence: a wrapped list inside the span of a sequence group (guard clause seq_member,
-   a modelling rule: it reads back on the real code).  The rest of the quantifier (nillable,
-   wildcards, compound fields, xsi:type, unions, QName values of attributes / Text / token lists)
-   is covered by the correspondence and the oracle of harness/c01.py only. *)
+   nillable fields, token lists inside sequence groups, QName values under a user default namespace,
+   xsi:type dropped).  What is PROVED is the statement under the computable guards `wf_model u cls`
+   (the metadata fragment) and `fits ... o`, for every ignore_default_attributes flag, every parser
+   configuration whose class factory has a default for every field, every converter satisfying the
+   round-trip law on the values of `o`:
+   - C01_roundtrip_S4: for EVERY event stream that reads as the document (any attribute order, any
+     prefix maps, indentation white space), when no class of the fragment has an attribute MAP
+     (`nomaps_u`: a dict comes back in the order the attributes were reported);
+   - C01_roundtrip_ordered_S5_partial: the same for every event stream that keeps the attribute
+     order (`reads_o true`: what XML readers deliver), attribute maps (xs:anyAttribute) and xs:anyType
+     elements holding a str included;
+   - C01_roundtrip_pump_S4 (canonical stream, attribute maps included), C01_document_parses_S4 /
+     _native_S4 / _lxml_S4 (through C03's writers down to the printed document).
+   Proved slices: S1-S4 (attributes, elements, Text, nesting, lists, tokens, wrappers, sequence groups,
+   namespaces), QName values of elements / attributes / Text, recursive class graphs, subclass instances
+   announced by xsi:type, nillable fields and classes, and of S5 (generic content) xs:anyType elements
+   holding a str and attribute maps.  The forms that go through `pump` or through C03's writers are
+   stated for instances without QName values (`noq o`) and without xsi:type (`exact_classes`): under a
+   user prefix map that binds the default namespace a QName without namespace is written bare and read
+   back inside that namespace (C01_qname_default_ns_refuted, finding C01-F3).  The rest of the
+   quantifier (wildcards holding AnyElement trees, compound fields, unions, DerivedElement, QName token
+   lists, a wrapped list inside a sequence group) is covered by the correspondence and the oracle of
+   harness/c01.py only. *)
 From Coq Require Import NArith ZArith List Bool.
 From XV Require Import Base.Str Base.Eqb Base.PyInt Spec.XmlNs Model.Bind Model.WriterBridge Spec.Fits Model.RoundtripCorr
   Proofs.RoundtripParse Proofs.RoundtripMain Proofs.RoundtripWitness Proofs.RoundtripExamples
@@ -49,14 +55,31 @@ Import ListNotations.
 Theorem C01_roundtrip_S4 : forall cfg c u ok ign n cls o,
   conv_roundtrips c u ok ->                 (* converter law on the accepted values (C05 / C06) *)
   nodefault_free cfg = true ->              (* every field has a default (C15, first refutation) *)
+  nomaps_u u = true ->                      (* no attribute map: a dict keeps the order the attributes are reported in *)
   wf_model u cls = true ->                  (* metadata fragment *)
   fits c u ok py_isspace n cls o = true ->  (* typed, representable instance *)
   exists evs e,
     EventGen.generate ign c u o = EventGen.Ok evs
     /\ itree_of_events (map (of_wevent c) evs) = Some e
     /\ forall k pevs, reads e pevs -> Parser.parse_n k cfg c u (Some cls) pevs = Parser.Ok o [].
-Proof. intros. eapply roundtrip_reads; eassumption. Qed.
+Proof. intros. eapply (roundtrip_reads cfg c u ok ign H H0 false); try eassumption. right. assumption. Qed.
 Print Assumptions C01_roundtrip_S4.
+
+(* ---- slice S5 (generic content), partial: attribute maps (xs:anyAttribute, `dict[str, str]`) and
+   xs:anyType elements holding a str.  A map comes back in the order the attributes are reported:
+   the statement is about every event stream that reads as the document AND keeps the attribute
+   order of the tree (`reads_o true`: what XML readers deliver; prefix maps and indentation white
+   space stay free).  Keys: distinct, admitted by the namespace constraint of the field, not claimed
+   by a declared attribute, not xsi:nil / xsi:type; values without a colon (`fits_map`). *)
+Theorem C01_roundtrip_ordered_S5_partial : forall cfg c u ok ign n cls o,
+  conv_roundtrips c u ok -> nodefault_free cfg = true ->
+  wf_model u cls = true -> fits c u ok py_isspace n cls o = true ->
+  exists evs e,
+    EventGen.generate ign c u o = EventGen.Ok evs
+    /\ itree_of_events (map (of_wevent c) evs) = Some e
+    /\ forall k pevs, reads_o true e pevs -> Parser.parse_n k cfg c u (Some cls) pevs = Parser.Ok o [].
+Proof. intros. eapply (roundtrip_reads cfg c u ok ign H H0 true); try eassumption. left. reflexivity. Qed.
+Print Assumptions C01_roundtrip_ordered_S5_partial.
 
 (* ---- the same in the form of the property text: the canonical reader stream `pump` of the tree
    the emitted events mean (C03 connects that tree with the documents both writers produce) *)
@@ -80,6 +103,7 @@ Print Assumptions C01_roundtrip_pump_S4.
 Theorem C01_document_parses_S4 : forall cfg c u ok ign n cls o t' m k,
   conv_roundtrips c u ok -> nodefault_free cfg = true ->
   wf_model u cls = true -> fits c u ok py_isspace n cls o = true -> noq o = true -> exact_classes u n cls o = true ->
+  nomaps_u u = true ->                      (* `doc_says` does not fix the attribute order *)
   wf_doc t' = true -> doc_says (eobj c u ign n None o) (strip_indent t') = true ->
   Parser.parse_n k cfg c u (Some cls) (pump_doc m t' None) = Parser.Ok o [].
 Proof. intros. eapply document_parses; try eassumption. reflexivity. Qed.
@@ -93,6 +117,7 @@ Print Assumptions C01_document_parses_S4.
 Theorem C01_roundtrip_native_S4 : forall cfg c u ok ign n cls o wcfg user,
   conv_roundtrips c u ok -> nodefault_free cfg = true ->
   wf_model u cls = true -> fits c u ok py_isspace n cls o = true -> noq o = true -> exact_classes u n cls o = true ->
+  nomaps_u u = true ->
   cfg_schema_location wcfg = None -> cfg_no_ns_schema_location wcfg = None ->
   exists evs,
     EventGen.generate ign c u o = EventGen.Ok evs
@@ -109,6 +134,7 @@ Print Assumptions C01_roundtrip_native_S4.
 Theorem C01_roundtrip_lxml_S4 : forall cfg c u ok ign n cls o wcfg user,
   conv_roundtrips c u ok -> nodefault_free cfg = true ->
   wf_model u cls = true -> fits c u ok py_isspace n cls o = true -> noq o = true -> exact_classes u n cls o = true ->
+  nomaps_u u = true ->
   cfg_schema_location wcfg = None -> cfg_no_ns_schema_location wcfg = None ->
   exists evs,
     EventGen.generate ign c u o = EventGen.Ok evs
@@ -144,8 +170,8 @@ Print Assumptions C01_guards_inhabited.
    indentation and a user prefix map -> XmlEventHandler; LxmlEventWriter with
    ignore_default_attributes -> LxmlEventHandler) read as the expected tree, and are parsed back *)
 Example C01_real_events_read :
-  (match expected_rich false with Some e => reads_b e pevs_rich_native_indent | None => false end) = true
-  /\ (match expected_rich true with Some e => reads_b e pevs_rich_lxml | None => false end) = true.
+  (match expected_rich false with Some e => reads_b true e pevs_rich_native_indent | None => false end) = true
+  /\ (match expected_rich true with Some e => reads_b true e pevs_rich_lxml | None => false end) = true.
 Proof. exact real_events_read_rich. Qed.
 
 Example C01_real_events_parse :
@@ -198,7 +224,7 @@ Example C01_guards_qname_inhabited :
 Proof. exact guards_qn. Qed.
 
 Example C01_real_events_qname :
-  (match expected_qn with Some e => reads_b e pevs_qn | None => false end) = true
+  (match expected_qn with Some e => reads_b true e pevs_qn | None => false end) = true
   /\ Parser.parse cfg_strict conv_c05 u_qn (Some root_qn) pevs_qn = Parser.Ok o_qn [].
 Proof. exact real_events_qn. Qed.
 
@@ -209,7 +235,7 @@ Proof. exact real_events_qn. Qed.
 Theorem C01_qname_default_ns_refuted :
   wf_model u_qn root_qn = true
   /\ fits conv_c05 u_qn ok_c05 py_isspace 2 root_qn o_qn = true
-  /\ (match expected_qn with Some e => reads_b e pevs_qn_default | None => true end) = false
+  /\ (match expected_qn with Some e => reads_b true e pevs_qn_default | None => true end) = false
   /\ ParserCorr.outcome_eqb (Parser.parse cfg_strict conv_c05 u_qn (Some root_qn) pevs_qn_default) (Parser.Ok o_qn []) = false
   /\ has_local_qname o_qn = true.
 Proof. exact qname_default_ns_refuted. Qed.
@@ -229,7 +255,7 @@ Proof. exact guards_tree. Qed.
 
 Example C01_real_events_recursive :
   (match expected_of conv_c05 (EventGen.generate false conv_c05 u_tree o_tree) with
-   | Some e => reads_b e pevs_tree | None => false end) = true
+   | Some e => reads_b true e pevs_tree | None => false end) = true
   /\ Parser.parse cfg_strict conv_c05 u_tree (Some root_tree) pevs_tree = Parser.Ok o_tree []
   /\ Parser.parse cfg_strict conv_c05 u_tree (Some root_tree)
        (pump (expected_of conv_c05 (EventGen.generate false conv_c05 u_tree o_tree))) = Parser.Ok o_tree [].
@@ -250,8 +276,8 @@ Example C01_guards_subclass_inhabited :
 Proof. exact guards_inh. Qed.
 
 Example C01_real_events_subclass :
-  (match expected_inh with Some e => reads_b e pevs_inh_native | None => false end) = true
-  /\ (match expected_inh with Some e => reads_b e pevs_inh_lxml | None => false end) = true
+  (match expected_inh with Some e => reads_b true e pevs_inh_native | None => false end) = true
+  /\ (match expected_inh with Some e => reads_b true e pevs_inh_lxml | None => false end) = true
   /\ Parser.parse cfg_strict conv_c05 u_inh (Some root_inh) pevs_inh_native = Parser.Ok o_inh []
   /\ Parser.parse cfg_strict conv_c05 u_inh (Some root_inh) pevs_inh_lxml = Parser.Ok o_inh [].
 Proof. exact real_events_inh. Qed.
